@@ -1038,6 +1038,68 @@ impl TokenizedBuffer {
     }
 }
 
+/// Verification hooks: raw access to the buffer representation
+#[cfg(sas_lexer_verif)]
+impl TokenizedBuffer {
+    /// Builds a buffer from raw (byte offset, char offset) line starts,
+    /// raw token tuples and the string literals buffer
+    #[must_use]
+    pub fn verif_from_raw(
+        lines: &[(u32, u32)],
+        tokens: &[(TokenChannel, TokenType, u32, u32, u32, Payload)],
+        string_literals_buffer: String,
+    ) -> Self {
+        TokenizedBuffer {
+            line_infos: lines
+                .iter()
+                .map(|&(b, c)| LineInfo {
+                    byte_offset: ByteOffset::new(b),
+                    start: CharOffset::new(c),
+                })
+                .collect(),
+            token_infos: tokens
+                .iter()
+                .map(|&(channel, token_type, b, c, l, payload)| TokenInfo {
+                    channel,
+                    token_type,
+                    byte_offset: ByteOffset::new(b),
+                    start: CharOffset::new(c),
+                    line: LineIdx::new(l),
+                    payload,
+                })
+                .collect(),
+            string_literals_buffer,
+        }
+    }
+
+    /// Raw (byte offset, char offset) of every line start
+    #[must_use]
+    pub fn verif_line_infos(&self) -> Vec<(u32, u32)> {
+        self.line_infos
+            .iter()
+            .map(|li| (li.byte_offset.get(), li.start.get()))
+            .collect()
+    }
+
+    /// Raw token tuples
+    #[must_use]
+    pub fn verif_token_infos(&self) -> Vec<(TokenChannel, TokenType, u32, u32, u32, Payload)> {
+        self.token_infos
+            .iter()
+            .map(|t| {
+                (
+                    t.channel,
+                    t.token_type,
+                    t.byte_offset.get(),
+                    t.start.get(),
+                    t.line.0,
+                    t.payload,
+                )
+            })
+            .collect()
+    }
+}
+
 #[cfg(test)]
 mod tests {
     use super::*;
